@@ -73,6 +73,13 @@
 #endif
 
 /* Commit and restore VM state before possible longjmp */
+/* Store the result of a call that may run Janet code on this fiber (an operator method
+ * implemented as a Janet function): the call can relocate the fiber's stack. */
+#define vm_store_call(EXPR) do { \
+    Janet _call_result = (EXPR); \
+    stack = fiber->data + fiber->frame; \
+    stack[A] = _call_result; \
+} while (0)
 #define vm_commit() do { janet_stack_frame(stack)->pc = pc; } while (0)
 #define vm_restore() do { \
     stack = fiber->data + fiber->frame; \
@@ -135,7 +142,7 @@
         if (!janet_checktype(op1, JANET_NUMBER)) {\
             vm_commit();\
             Janet _argv[2] = { op1, janet_wrap_number(CS) };\
-            stack[A] = janet_mcall(#op, 2, _argv);\
+            vm_store_call(janet_mcall(#op, 2, _argv));\
             vm_checkgc_pcnext();\
         } else {\
             double x1 = janet_unwrap_number(op1);\
@@ -149,7 +156,7 @@
         if (!janet_checktype(op1, JANET_NUMBER)) {\
             vm_commit();\
             Janet _argv[2] = { op1, janet_wrap_number(CS) };\
-            stack[A] = janet_mcall(#op, 2, _argv);\
+            vm_store_call(janet_mcall(#op, 2, _argv));\
             vm_checkgc_pcnext();\
         } else {\
             double y1 = janet_unwrap_number(op1);\
@@ -172,7 +179,7 @@
             vm_pcnext();\
         } else {\
             vm_commit();\
-            stack[A] = janet_binop_call(#op, "r" #op, op1, op2);\
+            vm_store_call(janet_binop_call(#op, "r" #op, op1, op2));\
             vm_checkgc_pcnext();\
         }\
     }
@@ -192,7 +199,7 @@
             vm_pcnext();\
         } else {\
             vm_commit();\
-            stack[A] = janet_binop_call(#op, "r" #op, op1, op2);\
+            vm_store_call(janet_binop_call(#op, "r" #op, op1, op2));\
             vm_checkgc_pcnext();\
         }\
     }
@@ -716,7 +723,7 @@ static JanetSignal run_vm(JanetFiber *fiber, Janet in) {
             vm_pcnext();
         } else {
             vm_commit();
-            stack[A] = janet_binop_call("div", "rdiv", op1, op2);
+            vm_store_call(janet_binop_call("div", "rdiv", op1, op2));
             vm_checkgc_pcnext();
         }
     }
@@ -736,7 +743,7 @@ static JanetSignal run_vm(JanetFiber *fiber, Janet in) {
             vm_pcnext();
         } else {
             vm_commit();
-            stack[A] = janet_binop_call("mod", "rmod", op1, op2);
+            vm_store_call(janet_binop_call("mod", "rmod", op1, op2));
             vm_checkgc_pcnext();
         }
     }
@@ -751,7 +758,7 @@ static JanetSignal run_vm(JanetFiber *fiber, Janet in) {
             vm_pcnext();
         } else {
             vm_commit();
-            stack[A] = janet_binop_call("%", "r%", op1, op2);
+            vm_store_call(janet_binop_call("%", "r%", op1, op2));
             vm_checkgc_pcnext();
         }
     }
@@ -772,7 +779,7 @@ static JanetSignal run_vm(JanetFiber *fiber, Janet in) {
             vm_pcnext();
         } else {
             vm_commit();
-            stack[A] = janet_unary_call("~", op);
+            vm_store_call(janet_unary_call("~", op));
             vm_checkgc_pcnext();
         }
     }
